@@ -753,6 +753,152 @@ def h_respawn_after_shutdown_nowait(i):
     return {"reproduced": failed, "observed": [l[:300] for l in lines[-3:]], "expected": "results 0..11 and no exception in the manager thread"}
 
 
+def h_live_table_iteration(i):
+    """F16: the real _adjust_process_count on an executor whose worker table is full (nothing to spawn: only its final debug message runs) while another
+    thread adds and removes an entry of that table, as the manager thread does when a worker leaves: no RuntimeError may escape."""
+    import threading
+    import types
+    from loky.process_executor import ProcessPoolExecutor
+    ex = ProcessPoolExecutor(max_workers=2)
+    n = int(i.get("entries", 20000))
+    for k in range(n):
+        ex._processes[-k - 2] = types.SimpleNamespace(name="w")
+    ex._max_workers = n
+    stop = threading.Event()
+
+    def churn():
+        dummy = types.SimpleNamespace(name="w")
+        present = False
+        while not stop.is_set():
+            # one change of the table per loop iteration (a thread switch can only happen between iterations): like the manager thread popping a worker
+            if present:
+                del ex._processes[-1]
+            else:
+                ex._processes[-1] = dummy
+            present = not present
+
+    t = threading.Thread(target=churn, daemon=True)
+    t.start()
+    errors = []
+    try:
+        import time
+        t0 = time.time()
+        while time.time() - t0 < float(i.get("seconds", 25)):
+            try:
+                ex._adjust_process_count()
+            except RuntimeError as e:
+                errors.append(str(e))
+                break
+    finally:
+        stop.set()
+        t.join(5)
+        ex._processes.clear()
+    return {"reproduced": bool(errors), "observed": {"errors": errors[:1]}, "expected": {"errors": []}}
+
+
+def h_falsy_exception(i):
+    """F14: the real process_result_item fed a result item whose exception object is falsy (an exception class that is also a container, empty):
+    the future must fail with that exception, not resolve with the value None."""
+    import threading
+    from loky import process_executor as pe
+    from loky._base import Future
+
+    class Errors(Exception):
+        """an exception carrying a collection of problems (empty here): it defines __len__, so bool(Errors()) is False"""
+
+        def __init__(self, problems=()):
+            super().__init__(*problems)
+            self.problems = list(problems)
+
+        def __len__(self):
+            return len(self.problems)
+
+    m = object.__new__(pe._ExecutorManagerThread)
+    fut = Future()
+    fut.set_running_or_notify_cancel()
+    m.pending_work_items = {7: pe._WorkItem(fut, print, (), {})}
+    m.running_work_items = [7]
+    exc = Errors()
+    m.process_result_item(pe._ResultItem(7, exception=exc))
+    got_exc = fut.exception(timeout=1) if fut.done() else "future not done"
+    ok = got_exc is exc
+    return {"reproduced": not ok, "observed": {"future_exception": repr(got_exc), "future_result": repr(fut.result()) if fut.done() and fut.exception() is None else None},
+            "expected": {"future_exception": repr(exc)}}
+
+
+_F17_PROG = 'import os, sys, time, threading\nsys.path.insert(0, "/repo")\nfrom loky.process_executor import ProcessPoolExecutor\nif __name__ == "__main__":\n    ex = ProcessPoolExecutor(max_workers=1)\n    pid = ex.submit(os.getpid).result()\n    f = ex.submit(time.sleep, 20)\n    time.sleep(0.5)\n    mt = ex._executor_manager_thread\n    ex.shutdown(wait=False)\n    time.sleep(0.5)\n    t0 = time.time()\n    ex.shutdown(wait=True, kill_workers=True)\n    dt = time.time() - t0\n    def alive(p):\n        try:\n            os.kill(p, 0); return open(f"/proc/{p}/stat").read().split()[2] != "Z"\n        except OSError:\n            return False\n    time.sleep(0.5)\n    print("second shutdown(wait=True, kill_workers=True) took %.2fs; worker alive: %s; manager thread alive: %s; future done: %s" % (dt, alive(pid), mt.is_alive(), f.done()))\n    ok = not alive(pid) and not mt.is_alive() and f.done()\n    print("PASS" if ok else "FAIL: the forced shutdown neither woke nor joined the manager thread: the worker keeps running its task")\n    if alive(pid): os.kill(pid, 9)\n    os._exit(0 if ok else 1)\n'
+
+
+def h_second_shutdown_after_nowait(i):
+    """F17: shutdown(wait=False) while a 20 s task runs, then shutdown(wait=True, kill_workers=True): the second call must wake the manager thread, kill the
+    worker and join the thread."""
+    import subprocess
+    import tempfile
+    repo = sys.argv[3] if len(sys.argv) > 3 else "/repo"
+    with tempfile.TemporaryDirectory(prefix="f17-") as td:
+        path = os.path.join(td, "prog.py")
+        with open(path, "w") as fh:
+            fh.write(_F17_PROG.replace('"/repo"', repr(repo)))
+        out = os.path.join(td, "out.txt")
+        with open(out, "w") as fo:
+            try:
+                subprocess.run([sys.executable, path], stdout=fo, stderr=subprocess.DEVNULL, stdin=subprocess.DEVNULL, timeout=90, start_new_session=True)
+            except subprocess.TimeoutExpired:
+                pass
+        lines = [l for l in open(out, errors="replace").read().splitlines() if l and "leaked" not in l]
+    failed = any(l.startswith("FAIL") for l in lines) or not any(l.startswith("PASS") for l in lines)
+    return {"reproduced": failed, "observed": [l[:300] for l in lines[-2:]], "expected": "worker killed, manager thread joined, future resolved"}
+
+
+_F15_PROG = 'import os, sys, time, threading, warnings\nsys.path.insert(0, "/repo")\nwarnings.simplefilter("ignore")\nfrom loky.process_executor import ProcessPoolExecutor\ndef init():\n    import loky.process_executor as pe\n    pe._MAX_MEMORY_LEAK_SIZE = 0          # every memory check finds a "leak": the worker leaves cleanly after announcing its pid\n    pe._MEMORY_LEAK_CHECK_DELAY = 0.2\ndef work(i):\n    import time\n    x = [0] * 200000\n    time.sleep(0.4)\n    return i\nif __name__ == "__main__":\n    errs = []\n    threading.excepthook = lambda a: errs.append((a.thread.name, a.exc_type.__name__, str(a.exc_value)[:80]))\n    ex = ProcessPoolExecutor(max_workers=1, initializer=init)\n    futs = [ex.submit(work, i) for i in range(12)]\n    mode = sys.argv[1] if len(sys.argv) > 1 else "collected"\n    if mode == "collected":\n        del ex                            # the executor object is collected while its futures are pending\n        import gc; gc.collect()\n    res = []\n    for f in futs:\n        try:\n            res.append(f.result(timeout=6))\n        except Exception as e:\n            res.append(type(e).__name__)\n    print("results:", res)\n    print("manager thread errors:", errs)\n    ok = res == list(range(12)) and not errs\n    print("PASS" if ok else "FAIL")\n    os._exit(0 if ok else 1)\n'
+
+
+def h_respawn_after_executor_collected(i):
+    """F15: 12 tasks on a one-worker pool whose workers leave cleanly after every memory check; the executor object is deleted (collected) right after
+    the submissions while the futures are kept: every task must still complete."""
+    import subprocess
+    import tempfile
+    repo = sys.argv[3] if len(sys.argv) > 3 else "/repo"
+    with tempfile.TemporaryDirectory(prefix="f15-") as td:
+        path = os.path.join(td, "prog.py")
+        with open(path, "w") as fh:
+            fh.write(_F15_PROG.replace('"/repo"', repr(repo)))
+        out = os.path.join(td, "out.txt")
+        with open(out, "w") as fo:
+            try:
+                subprocess.run([sys.executable, path, "collected"], stdout=fo, stderr=subprocess.DEVNULL, stdin=subprocess.DEVNULL, timeout=170, start_new_session=True)
+            except subprocess.TimeoutExpired:
+                pass
+        lines = [l for l in open(out, errors="replace").read().splitlines() if l and "leaked" not in l]
+    failed = any(l.startswith("FAIL") for l in lines) or not any(l.startswith("PASS") for l in lines)
+    return {"reproduced": failed, "observed": [l[:300] for l in lines[-3:]], "expected": "results 0..11"}
+
+
+_F18_PROG = 'import os, sys, time, threading, warnings\nsys.path.insert(0, "/repo")\npass\nfrom loky.process_executor import ProcessPoolExecutor\ndef init():\n    import loky.process_executor as pe\n    pe._MAX_MEMORY_LEAK_SIZE = 0          # every memory check finds a "leak": the worker leaves cleanly after announcing its pid\n    pe._MEMORY_LEAK_CHECK_DELAY = 0.2\ndef work(i):\n    import time\n    x = [0] * 200000\n    time.sleep(0.4)\n    return i\nif __name__ == "__main__":\n    errs = []\n    threading.excepthook = lambda a: errs.append((a.thread.name, a.exc_type.__name__, str(a.exc_value)[:80]))\n    ex = ProcessPoolExecutor(max_workers=1, initializer=init)\n    futs = [ex.submit(work, i) for i in range(12)]\n    mode = sys.argv[1] if len(sys.argv) > 1 else "nowait"\n    if mode == "nowait":\n        ex.shutdown(wait=False)           # the executor object stays referenced by `ex`\n    res = []\n    for f in futs:\n        try:\n            res.append(f.result(timeout=6))\n        except Exception as e:\n            res.append(type(e).__name__)\n    print("results:", res)\n    print("manager thread errors:", errs)\n    ok = res == list(range(12)) and not errs\n    print("PASS" if ok else "FAIL")\n    os._exit(0 if ok else 1)\n'
+
+
+def h_respawn_warning_as_error(i):
+    """F18 (and F13 for mode 'nowait'): 12 tasks on a one-worker pool whose workers leave cleanly after every memory check, the parent running with
+    -W error::UserWarning: the warning issued when a worker is replaced must not kill the manager thread; every task must complete."""
+    import subprocess
+    import tempfile
+    repo = sys.argv[3] if len(sys.argv) > 3 else "/repo"
+    with tempfile.TemporaryDirectory(prefix="f18-") as td:
+        path = os.path.join(td, "prog.py")
+        with open(path, "w") as fh:
+            fh.write(_F18_PROG.replace('"/repo"', repr(repo)))
+        out = os.path.join(td, "out.txt")
+        with open(out, "w") as fo:
+            try:
+                subprocess.run([sys.executable, "-W", "error::UserWarning", path, str(i.get("mode", "wait"))], stdout=fo, stderr=subprocess.DEVNULL,
+                               stdin=subprocess.DEVNULL, timeout=170, start_new_session=True)
+            except subprocess.TimeoutExpired:
+                pass
+        lines = [l for l in open(out, errors="replace").read().splitlines() if l and "leaked" not in l]
+    failed = any(l.startswith("FAIL") for l in lines) or not any(l.startswith("PASS") for l in lines)
+    return {"reproduced": failed, "observed": [l[:300] for l in lines[-3:]], "expected": "results 0..11 and no exception in the manager thread"}
+
+
 def main():
     name, inputs, repo = sys.argv[1], json.loads(sys.argv[2]), sys.argv[3]
     sys.path.insert(0, repo)
